@@ -122,7 +122,7 @@ def run(coro):
     return lp.run_until_complete(coro)
 
 
-async def make_env(svc_vars: List[List[Dict[str, Any]]]):
+async def make_env(svc_vars: List[List[Dict[str, Any]]], aiohttp_server: bool = False):
     """-> (requester, event_handler, [services])  — services are referenced by the returned list (kept alive)"""
     from async_upnp_client.client_factory import UpnpFactory
     from async_upnp_client.event_handler import UpnpEventHandler, UpnpNotifyServer
@@ -146,8 +146,36 @@ async def make_env(svc_vars: List[List[Dict[str, Any]]]):
     svcs = [dev.service(f"urn:schemas-upnp-org:service:S{i}:1") for i in range(len(svc_vars))]
     for i, s in enumerate(svcs):
         assert svc_index(s.event_sub_url) == i, s.event_sub_url
-    eh = UpnpEventHandler(NotifyServer(), rq)
+    if aiohttp_server:
+        # the library's own notify server in front of the handler (not started: requests are handed to `_handle_request`)
+        from async_upnp_client.aiohttp import AiohttpNotifyServer
+
+        ns = AiohttpNotifyServer(rq, source=("192.168.1.2", 8090), callback_url=CALLBACK, loop=asyncio.get_running_loop())
+        eh = ns.event_handler
+    else:
+        eh = UpnpEventHandler(NotifyServer(), rq)
     return rq, eh, svcs
+
+
+class FakeWebRequest:
+    """what `AiohttpNotifyServer._handle_request` uses of an aiohttp.web.BaseRequest: method, headers (CIMultiDictProxy), text()"""
+
+    def __init__(self, method: str, headers, body: str) -> None:
+        self.method = method
+        self.headers = headers
+        self._body = body
+
+    async def text(self) -> str:
+        return self._body
+
+    def __repr__(self) -> str:
+        return f"<FakeWebRequest {self.method}>"
+
+
+async def notify_via_server(eh, headers, body: str, method: str = "NOTIFY") -> int:
+    """deliver a request the way the publisher does: through the notify server; returns the HTTP status it answers"""
+    resp = await eh._notify_server._handle_request(FakeWebRequest(method, headers, body))
+    return int(resp.status)
 
 
 def exc_tok(e: BaseException) -> str:
